@@ -81,6 +81,30 @@ def run(tier):
     mv = multi_var_pairs(rng, 200 if tier == 'quick' else 300)
     for lang, x, y in mv:
         tasks.append({'op': 'bin', 'lang': lang, 'x': x, 'y': y, 'reps': 2, 'mv': True})
+    # twins: the same pair with the variable feature [X] put on its feature-less S atoms / left off, asked next to each
+    # other (the shipped tag inventory writes modifiers without [X]; unary rules and the rebanked lexicon bring it in)
+    def add_x(c):
+        if c['k'] == 'F':
+            return gen.fun(add_x(c['l']), c['s'], add_x(c['r']))
+        return gen.atom(c['b'], gen.uf('X')) if c['b'] == 'S' and c['f'] == enc.NOF else c
+    plain = [c for c in inv['en'] + inv['en_rebank'] if c['k'] == 'F' and add_x(c) != c]
+    others = inv['en']
+    for _ in range(200):
+        c = rng.choice(plain)
+        shape = rng.randrange(4)
+        if shape == 0:
+            x0, y0 = c, (c['r'] if c['s'] == '/' else rng.choice(others))
+        elif shape == 1:
+            x0, y0 = (c['r'] if c['s'] == '\\' else rng.choice(others)), c
+        elif shape == 2:
+            x0, y0 = rng.choice([gen.atom('conj'), gen.atom(','), gen.atom(';')]), c
+        else:
+            x0, y0 = c, rng.choice(others)
+        pair = [(add_x(x0), add_x(y0)), (x0, y0)]
+        if rng.random() < 0.5:
+            pair.reverse()
+        for a, b in pair:
+            tasks.append({'op': 'bin', 'lang': 'en', 'x': a, 'y': b, 'reps': 2})
     for i in range(300):
         x = gen.rand_cat(rng, 2, 'en', '/\\')
         y = gen.rand_cat(rng, 2, 'en', '/\\')
